@@ -376,6 +376,12 @@ pub fn run(rt: &tokio::runtime::Runtime, pool: &KeyPool, sc: &Value) -> Value {
                         let md = out.join("metadata");
                         let td = out.join("targets");
                         let subset: Option<Vec<String>> = c.get("subset").and_then(|x| x.as_array()).map(|a| a.iter().map(|x| x.as_str().unwrap().to_string()).collect());
+                        // files that are in the output directories before the cache is written: [[relative path, content]]
+                        for pf in list(&c["prefill"]) {
+                            let p = out.join(pf[0].as_str().unwrap());
+                            std::fs::create_dir_all(p.parent().unwrap()).unwrap();
+                            std::fs::write(p, pf[1].as_str().unwrap_or("").as_bytes()).unwrap();
+                        }
                         let r = rt.block_on(repo.cache(&md, &td, subset.as_deref(), c["root_chain"].as_bool().unwrap_or(false)));
                         let listing = crate::client::listing(&out, "\u{0}none");
                         return Ok(json!([0, view, match r { Ok(()) => json!([0]), Err(e) => err_class(&e) },
